@@ -66,6 +66,9 @@ func (w *XW) rawRequest(serverIdx int, payload []byte, closeWrite bool, maxWait 
 		_ = stream.CloseWrite()
 	}
 	for len(out.frames) < 300 {
+		if w.ReaderPause > 0 && len(out.frames) > 0 {
+			w.S.YieldAfter("slow-reader", w.ReaderPause) // a slow reader: back pressure on the server's writes
+		}
 		resp := new(p2p_pb.HeaderResponse)
 		if _, err := serde.Read(stream, resp); err != nil {
 			out.endErr = err
@@ -140,6 +143,10 @@ func runC10(s *core.Sim, tier string) RunInfo {
 				cases = append(cases, "slow sender")
 				s.Probe("server-stopped-with-half-read-request")
 			}
+			if w.SenderPause == 0 && s.Tape.Coin("slow-reader", 1, 2) {
+				w.ReaderPause = time.Duration(1+s.Tape.Draw("reader-pause-ms", 100)) * time.Millisecond
+				cases = append(cases, "slow reader")
+			}
 			var resp rawResp
 			tr := s.Go("request", func() {
 				resp = w.rawRequest(1, frameReq(&p2p_pb.HeaderRequest{Data: &p2p_pb.HeaderRequest_Origin{Origin: origin}, Amount: amount}), true, maxWait)
@@ -171,6 +178,17 @@ func runC10(s *core.Sim, tier string) RunInfo {
 				if err := h.UnmarshalBinary(f.Body); err != nil || !simhdr.Equal(h, w.Ch.At(origin+uint64(i))) || origin+uint64(i) > H || origin+uint64(i) < tail {
 					s.Violate("false-data", map[string]string{"req": "range", "racing": "server-stop"}, "request origin=%d amount=%d while the server was stopped: frame %d is %v (err %v)", origin, amount, i, h, err)
 					break
+				}
+			}
+			// a stream that ends cleanly after OK frames carries the whole answer: the requested range
+			// as far as the store's head reaches, not a shorter prefix of it
+			if nOK := len(resp.frames); errors.Is(resp.endErr, io.EOF) && nOK > 0 && resp.frames[0].StatusCode == p2p_pb.StatusCode_OK && origin >= tail && origin <= H {
+				want := amount
+				if origin+amount-1 > H {
+					want = H - origin + 1
+				}
+				if uint64(nOK) < want {
+					s.Violate("short-prefix", map[string]string{"racing": "server-stop"}, "request origin=%d amount=%d (store %d..%d) ended with a clean close after %d of %d headers while the server was stopped [%v]", origin, amount, tail, H, nOK, want, cases[len(cases)-1])
 				}
 			}
 			s.Probe("server-stopped-mid-request")
